@@ -1127,11 +1127,17 @@ def bs_american_binary_delta(
     d2_tensor = d2(s, t, v)
     w = v * t.sqrt()
 
-    # ToDo: fix 0/0 issue
+    # npdf(d) / (... * w) is 0 / 0 at time_to_maturity = 0 or volatility = 0; its limit is 0
+    def _div(numerator: Tensor, denominator: Tensor) -> Tensor:
+        output = numerator / denominator
+        return output.where(
+            (numerator != 0).logical_or(denominator != 0), torch.zeros_like(output)
+        )
+
     p = (
-        npdf(d2_tensor).div(spot * w)
+        _div(npdf(d2_tensor), spot * w)
         + ncdf(d1_tensor).div(strike)
-        + npdf(d1_tensor).div(strike * w)
+        + _div(npdf(d1_tensor), strike * w)
     )
     return p.where(max_log_moneyness < 0, torch.zeros_like(p))
 
@@ -1232,13 +1238,18 @@ def bs_lookback_price(
     m1 = d1(s - m, t, v)  # d' in the paper
     m2 = d2(s - m, t, v)
 
+    w = v * t.sqrt()
+    # w * d1 = s + w^2 / 2 and w * m1 = (s - m) + w^2 / 2: written this way the terms
+    # stay finite (no inf * 0) at time_to_maturity = 0 or volatility = 0
+    wd1 = s + w.square() / 2
+    wm1 = (s - m) + w.square() / 2
     # when max < strike
     price_0 = spot * (
-        ncdf(d1_value) + v * t.sqrt() * (d1_value * ncdf(d1_value) + npdf(d1_value))
+        ncdf(d1_value) + wd1 * ncdf(d1_value) + w * npdf(d1_value)
     ) - strike * ncdf(d2_value)
     # when max >= strike
     price_1 = (
-        spot * (ncdf(m1) + v * t.sqrt() * (m1 * ncdf(m1) + npdf(m1)))
+        spot * (ncdf(m1) + wm1 * ncdf(m1) + w * npdf(m1))
         - strike
         + max * (1 - ncdf(m2))
     )
